@@ -48,17 +48,18 @@ func (fv *FuncVerifier) libModel(st *State, full string, fn *types.Func, recv *V
 		fv.assumedLib(full)
 		r := fv.fresh("beq", "Bool")
 		fv.assume(st, "(= "+r+" "+fv.bytesEqualTerm(st, a[0], a[1])+")")
+		if fv.contract != nil && fv.contract.Flags["rank"] != "" {
+			// the byte order is an order embedding of slice contents: equal contents <=> equal rank
+			fv.assume(st, "(= "+r+" (= "+fv.rankTerm(st, a[0])+" "+fv.rankTerm(st, a[1])+"))")
+		}
 		return []Val{{T: r, Ty: boolT}}, true
 	case "bytes.Compare":
 		a := args()
-		fv.assumedLib(full + " (lexicographic three-way comparison: 0 iff equal, antisymmetric)")
-		fv.eng.needBytesCmp()
-		h := fv.eng.sc.sliceHeap(types.Typ[types.Uint8])
-		H := fv.heapOf(st, h)
+		fv.assumedLib(full + " (lexicographic three-way comparison: the sign of the difference of an order embedding of the contents into the reals; 0 iff equal)")
 		r := fv.fresh("bcmp", "Int")
-		rowA, rowB := "(select "+H+" "+sRef(a[0].T)+")", "(select "+H+" "+sRef(a[1].T)+")"
-		fv.assume(st, "(= "+r+" (bytes.cmp "+rowA+" "+sOff(a[0].T)+" "+sLen(a[0].T)+" "+rowB+" "+sOff(a[1].T)+" "+sLen(a[1].T)+"))")
-		fv.assume(st, "(and (<= (- 1) "+r+") (<= "+r+" 1) (= (= "+r+" 0) "+fv.bytesEqualTerm(st, a[0], a[1])+"))")
+		ra, rb := fv.rankTerm(st, a[0]), fv.rankTerm(st, a[1])
+		fv.assume(st, "(= "+r+" (ite (< "+ra+" "+rb+") (- 1) (ite (> "+ra+" "+rb+") 1 0)))")
+		fv.assume(st, "(= (= "+r+" 0) "+fv.bytesEqualTerm(st, a[0], a[1])+")")
 		return []Val{{T: r, Ty: t}}, true
 	case "bytes.HasPrefix":
 		a := args()
@@ -158,9 +159,9 @@ func (fv *FuncVerifier) libModel(st *State, full string, fn *types.Func, recv *V
 	case "fmt.Fprint":
 		// token model: Fprint(w, x) with one integer argument appends a Num token
 		if _, ok := st.ghost["ntok"]; ok && len(e.Args) == 2 {
-			if at := fv.typeOf(e.Args[1]); at != nil && isInteger(at) {
+			if at := fv.typeOf(e.Args[1]); at != nil && isInteger(at) && !hasFormattingMethod(at) {
 				a := args()
-				fv.assumedLib("fmt.Fprint(w, x) for an integer x writes its decimal form (token Num)")
+				fv.assumedLib("fmt.Fprint(w, x) for an integer x without String/Error/Format method writes its decimal form (token Num)")
 				n := st.ghost["ntok"].T
 				st.ghost["tokK"] = Val{T: "(store " + st.ghost["tokK"].T + " " + n + " 3)", Sort: "(Array Int Int)"}
 				st.ghost["tokN"] = Val{T: "(store " + st.ghost["tokN"].T + " " + n + " " + a[1].T + ")", Sort: "(Array Int Int)"}
@@ -176,7 +177,7 @@ func (fv *FuncVerifier) libModel(st *State, full string, fn *types.Func, recv *V
 	case "fmt.Fprintf":
 		// text codec token model: Fprintf(w, "%d", x) appends a Num token (only when the token ghosts exist)
 		if _, ok := st.ghost["ntok"]; ok && len(e.Args) == 3 {
-			if tv, ok := fv.info().Types[e.Args[1]]; ok && tv.Value != nil && tv.Value.String() == `"%d"` {
+			if tv, ok := fv.info().Types[e.Args[1]]; ok && tv.Value != nil && tv.Value.String() == `"%d"` && !hasMethod(fv.typeOf(e.Args[2]), "Format") {
 				a := args()
 				fv.assumedLib("fmt.Fprintf(w, \"%d\", x) writes the decimal form of x (token Num)")
 				n := st.ghost["ntok"].T
@@ -256,6 +257,32 @@ func (fv *FuncVerifier) libModel(st *State, full string, fn *types.Func, recv *V
 	return nil, false
 }
 
+// hasFormattingMethod: fmt's print verbs without an explicit numeric verb (Fprint, %v, %s) call these methods
+// instead of printing the number.
+func hasFormattingMethod(t types.Type) bool {
+	for _, tt := range []types.Type{t, types.NewPointer(t)} {
+		ms := types.NewMethodSet(tt)
+		for _, n := range []string{"String", "Error", "Format", "GoString"} {
+			if ms.Lookup(nil, n) != nil {
+				return true
+			}
+		}
+	}
+	return false
+}
+
+func hasMethod(t types.Type, name string) bool {
+	if t == nil {
+		return false
+	}
+	for _, tt := range []types.Type{t, types.NewPointer(t)} {
+		if types.NewMethodSet(tt).Lookup(nil, name) != nil {
+			return true
+		}
+	}
+	return false
+}
+
 func itoa(i int) string {
 	s := ""
 	if i == 0 {
@@ -268,13 +295,20 @@ func itoa(i int) string {
 	return s
 }
 
-func (eng *Engine) needBytesCmp() {
-	if _, ok := eng.ufuns["bytes.cmp"]; ok {
+// rankTerm: the rank of a byte slice's contents under an order embedding of lexicographic byte order into the
+// reals (one exists: the order is countable). Antisymmetry, transitivity and totality of bytes.Compare are then
+// facts of arithmetic; equal contents have equal rank and vice versa (assumed where bytes.Equal/Compare run).
+func (fv *FuncVerifier) rankTerm(st *State, a Val) string {
+	fv.eng.needBytesRank()
+	h := fv.eng.sc.sliceHeap(types.Typ[types.Uint8])
+	return "(bytes.rank (select " + fv.heapOf(st, h) + " " + sRef(a.T) + ") " + sOff(a.T) + " " + sLen(a.T) + ")"
+}
+
+func (eng *Engine) needBytesRank() {
+	if _, ok := eng.ufuns["bytes.rank"]; ok {
 		return
 	}
-	eng.ufuns["bytes.cmp"] = &UFun{Name: "bytes.cmp", Args: []string{"(Array Int Int)", "Int", "Int", "(Array Int Int)", "Int", "Int"}, Ret: "Int"}
-	// antisymmetry
-	eng.axioms = append(eng.axioms, "(forall ((a (Array Int Int)) (ao Int) (al Int) (b (Array Int Int)) (bo Int) (bl Int)) (= (bytes.cmp a ao al b bo bl) (- (bytes.cmp b bo bl a ao al))))")
+	eng.ufuns["bytes.rank"] = &UFun{Name: "bytes.rank", Args: []string{"(Array Int Int)", "Int", "Int"}, Ret: "Real"}
 }
 
 // lockModel tracks a ghost lock state per syntactic lock path.
